@@ -75,8 +75,11 @@ func (c07) Generate(r *simkit.Rand, tier string) any {
 				cl.Burst = r.Range(1, 2000)
 			case 1, 2:
 				// the reference of this call equals the reference of the previous call of this
-				// caller if the counter's low 18 bits cycle
-				cl.Burst = 262143
+				// caller if some low part of the node's counter is all that distinguishes them
+				cl.Burst = 1<<uint(r.Range(8, 18)) - 1
+				if r.Chance(0.3) {
+					cl.Burst = 262143
+				}
 			}
 			calls = append(calls, cl)
 		}
@@ -106,7 +109,7 @@ func (c07) Shrink(cc any) []any {
 	}
 	for i := range c.Callers {
 		for j := range c.Callers[i] {
-			if b := c.Callers[i][j].Burst; b > 0 && b != 262143 {
+			if b := c.Callers[i][j].Burst; b > 0 && b&(b+1) != 0 {
 				n := cloneJSON(c)
 				n.Callers[i][j].Burst = 0
 				out = append(out, n)
@@ -142,9 +145,9 @@ func (c07) Run(e *simkit.Env, cc any) {
 	}
 	defer simkit.StopNode(e, n, false, 0)
 	var mu sync.Mutex
-	seen := map[int]int{}      // request id -> times presented to a callee
-	consumed := map[int]int{}  // reply serial -> times returned by a Call
-	replyOf := map[int]int{}   // reply serial -> request id
+	seen := map[int]int{}     // request id -> times presented to a callee
+	consumed := map[int]int{} // reply serial -> times returned by a Call
+	replyOf := map[int]int{}  // reply serial -> request id
 	serial := 0
 	newReply := func(req int) c07Reply {
 		mu.Lock()
@@ -310,7 +313,7 @@ func (c07) Run(e *simkit.Env, cc any) {
 					for k := 0; k < cl.Burst; k++ {
 						n.MakeRef()
 					}
-					if cl.Burst == 262143 && j > 0 {
+					if cl.Burst&(cl.Burst+1) == 0 && cl.Burst >= 255 && j > 0 {
 						e.Probe("ref-low-word-cycled")
 					}
 				}
